@@ -28,7 +28,7 @@ def main():
         shutil.rmtree(os.path.join(WT, "MUTANTS"), ignore_errors=True)
         os.makedirs(md)
         shutil.copytree(os.path.join(sd, "demo"), os.path.join(md, "demo"))
-        run = f"sh MUTANTS/{sid.split('-')[-1]}/demo/run.sh"
+        run = f"bash MUTANTS/{sid.split('-')[-1]}/demo/run.sh"
         rs = open(os.path.join(sd, "demo", "run.sh")).read()
         takes_root = bool(re.search(r"\$\{?1\b", rs)) and '"$@"' not in rs
         t0 = time.time()
